@@ -70,7 +70,7 @@ def _task(args):
         err = f'UNSUPPORTED: {e} [MIR stack: {ex.stack[-5:]}]'
     except Exception:
         err = 'ERROR: ' + traceback.format_exc()[-3000:]
-    return {'records': records, 'left': stack, 'paths': n, 'transitions': transitions, 'queries': ex.queries - q0,
+    return {'records': records, 'left': stack, 'paths': n, 'transitions': transitions, 'queries': ex.queries - q0, 'solver_time': ex.solver_time - st0,
             'err': err, 'time': time.time() - t0, 'called': sorted(ex.called), 'natives': sorted(ex.natives_used)}
 
 
@@ -87,7 +87,7 @@ class Pool:
     def explore(s, spec, deadline, first_budget=8, budget=150, on_record=None, max_paths=None):
         """explore the whole decision tree of check `spec`; returns stats dict.
         stats['complete'] is True iff every path was explored before the deadline."""
-        stats = {'paths': 0, 'transitions': 0, 'queries': 0, 'complete': False, 'errors': [], 'worker_time': 0.0,
+        stats = {'paths': 0, 'transitions': 0, 'queries': 0, 'solver_time': 0.0, 'complete': False, 'errors': [], 'worker_time': 0.0,
                  'called': set(), 'natives': set()}
         queue = [[]]
         inflight = []
@@ -110,6 +110,7 @@ class Pool:
                     stats['paths'] += res['paths']
                     stats['transitions'] += res['transitions']
                     stats['queries'] += res['queries']
+                    stats['solver_time'] += res.get('solver_time', 0.0)
                     stats['worker_time'] += res['time']
                     stats['called'].update(res['called'])
                     stats['natives'].update(res['natives'])
